@@ -44,6 +44,7 @@ class Env(object):
 
   def __init__(self, cap=6):
     self.cap = cap
+    self.for_targets = {}   # site of it()/it2() -> source text of the loop target (filled by the harness)
     self.reset(())
 
   def reset(self, prefix):
@@ -53,6 +54,9 @@ class Env(object):
     self.log = []
     self.markpos = None
     self.cap_hit = False
+    self.last_site = None
+    self.site_fresh = False
+    self.last_iterable = None
 
   def choose(self, n):
     i = self.pos
@@ -72,25 +76,36 @@ class Env(object):
 
   # --- callables visible to generated programs
   def c(self, site):
+    self.last_site = site
+    self.site_fresh = True
     v = bool(self.choose(2))
     self.log.append(('c', site, v))
     return v
 
   def it(self, site):
+    self.last_site = site
+    self.site_fresh = True
     n = self.choose(3)
     self.log.append(('it', site, n))
     items = [site * 100 + j for j in range(n)]
     k = site % 3
     if k == 0:
-      return items
-    if k == 1:
-      return tuple(items)
-    return _LogIter(self, site, items)
+      r = items
+    elif k == 1:
+      r = tuple(items)
+    else:
+      r = _LogIter(self, site, items)
+    self.last_iterable = r
+    return r
 
   def it2(self, site):
+    self.last_site = site
+    self.site_fresh = True
     n = self.choose(3)
     self.log.append(('it2', site, n))
-    return [(site * 100 + j, site * 100 + 50 + j) for j in range(n)]
+    r = [(site * 100 + j, site * 100 + 50 + j) for j in range(n)]
+    self.last_iterable = r
+    return r
 
   def t(self, site, *vals):
     self.log.append(('t', site) + tuple(srepr(v) for v in vals))
